@@ -280,7 +280,8 @@ func (e *Env) Build(a *APkt, o BuildOpts, now time.Time) ([]byte, error) {
 			for j := 0; j < n; j++ {
 				recent = recent || a.Hops[k+j].Exp
 			}
-			recent = recent && !e.T0.IsZero() && now.Sub(e.T0) >= 3*time.Second && r.Intn(2) == 0 &&
+			coin := r.Intn(2) == 0 // drawn unconditionally: the random stream must not depend on timing
+			recent = recent && coin && !e.T0.IsZero() && now.Sub(e.T0) >= 3*time.Second &&
 				!(a.Kind == "epic" && i == 0)
 			if recent {
 				ts = uint32(e.T0.Unix() + 1 - 337) // lifetime of ExpTime 0 is 337.5 s
@@ -291,7 +292,8 @@ func (e *Env) Build(a *APkt, o BuildOpts, now time.Time) ([]byte, error) {
 			for j := 0; j < n; j++ {
 				long = long || a.Hops[k+j].Exp
 			}
-			long = long && !recent && r.Intn(3) == 0 && !(a.Kind == "epic" && i == 0)
+			coin3 := r.Intn(3) == 0
+			long = long && !recent && coin3 && !(a.Kind == "epic" && i == 0)
 			if long {
 				ts = uint32(now.Unix() - int64([]int{3, 20}[r.Intn(2)]) - 67838) // 201 * 337.5 s = 67837.5 s
 			}
